@@ -2924,6 +2924,9 @@ public:
         // post: forall c \in cells:: c != [o,e_sz)
         // that is, get_overlap_cells returns cells different from [o, e_sz)
         if (cells.size() >= 1) {
+          // The written cell [o, e_sz) is overwritten as well: its
+          // previous content is unknown.
+          cells.push_back(mk_named_cell(a, o, e_sz, om).first);
           kill_cells(a, cells, om);
           // m_base_dom and s.right_dom have been properly renamed so we
           // don't need the next line which would do again the
